@@ -155,7 +155,7 @@ ValuesOf(s) ==
 
 \* "nodup": a walk in which nothing is given twice in one block; "dupattr": only simple keywords may repeat
 IsWalk  == Mode \in {"walk", "nodup", "dupattr"}
-NoDupBlock == Mode \in {"nodup", "dupattr"}
+NoDupBlock == Mode \in {"nodup", "dupattr", "nodupall"}     \* "nodupall": like "nodup", but every choice is enumerated
 Pick(S) == IF IsWalk THEN {RandomElement(S)} ELSE S
 
 AttrSlots(t)  == {s \in SlotsBy[t] : s[3] \in ScalarShapes \cup ListShapes}
@@ -166,7 +166,7 @@ Attr ==
     /\ AttrSlots(Top.type) # {}
     /\ \E s \in Pick(AttrSlots(Top.type)) :
          \E v \in Pick(ValuesOf(s)), kc \in Pick(Cases) :
-            /\ (Mode = "nodup" => ~HasKey(Top.d, s[2]))
+            /\ (Mode \in {"nodup", "nodupall"} => ~HasKey(Top.d, s[2]))
             /\ Apply([a |-> "attr", key |-> s[2], kc |-> kc, val |-> v, post |-> <<>>])
     /\ UNCHANGED <<done, target>>
 
